@@ -454,7 +454,7 @@ var codeAlphabet = []byte("NALPHRUCXFTWOMDSBE nlxdp01-\t")
 func TestC20(t *testing.T) {
 	c := begin(t, "C20")
 	defer c.end()
-	c.rec.F.Rule = "tables (complete): for all 22 v3 and 14 v2 metrics every code, its exported constant, printing, the validity predicates, every weight (PR per scope; every Modified metric at every own value x every base value; MPR over all 3 x 2 x 4 x 3 combinations of MS, S, MPR, PR) every integer in [-8, max+8] and integers aliasing a defined value under 8/16/32-bit truncation or carrying a second small number above it at any shift from 2 to 40 (no panic, print empty, same weight as the unknown value in every context; defined values under out-of-range contexts likewise); an ASCII character next to every two-byte rune in both orders (thorough: every valid UTF-8 string of at most 3 bytes) at every parser; long strings that start with a valid code (NUL / letter / blank fill at lengths 7..17, 255..257, 256+len, 512+len, 65536+len); codes: every string of length <= 3 over a 28-character alphabet (all code letters, lower case, digits, dash, space, tab) at every metric's parser plus rapid arbitrary strings; version: every byte string of length <= 3 as label at the prefix parser (behind CVSS:) and at the legacy v3/version parser (complete; thorough also 4-byte labels over a 24-byte alphabet), plus label parser/printer pairs on generated labels and integers. Non-trivial = a string that is not a valid code of the metric (must parse to unknown), or a dependent-weight table; distinct by hash of (version, metric, string)."
+	c.rec.F.Rule = "tables (complete): for all 22 v3 and 14 v2 metrics every code, its exported constant, printing, the validity predicates, every weight (PR per scope; every Modified metric at every own value x every base value; MPR over all 3 x 2 x 4 x 3 combinations of MS, S, MPR, PR) every integer in [-8, max+8] and integers aliasing a defined value under 8/16/32-bit truncation or carrying a second small number above it at any shift from 2 to 40 (no panic, print empty, same weight as the unknown value in every context; defined values under out-of-range contexts likewise); an ASCII character next to every two-byte rune in both orders (thorough: every valid UTF-8 string of at most 3 bytes) at every parser; long strings that start with a valid code (NUL / letter / blank fill at lengths 7..17, 255..257, 256+len, 512+len, 65536+len); code lists: two or three codes of the metric joined by one of 21 separators, a code next to a separator, the whole list; codes: every string of length <= 3 over a 28-character alphabet (all code letters, lower case, digits, dash, space, tab) at every metric's parser plus rapid arbitrary strings; version: every byte string of length <= 3 as label at the prefix parser (behind CVSS:) and at the legacy v3/version parser (complete; thorough also 4-byte labels over a 24-byte alphabet), plus label parser/printer pairs on generated labels and integers. Non-trivial = a string that is not a valid code of the metric (must parse to unknown), or a dependent-weight table; distinct by hash of (version, metric, string)."
 	c.rec.F.Assumptions = []string{"weights compared with ==: both sides are the nearest double of the same decimal literal", "for the v2 base metrics only separation by IsUnknown is required (its sense is the negation of its name)"}
 	nviol := 0
 	if shard == 0 {
@@ -593,6 +593,45 @@ func TestC20(t *testing.T) {
 			}
 		}
 		c.rec.Bulk("long-codes", evals, evals, map[string]int64{"long-string-with-code-prefix": evals})
+	}
+	// ---- code lists: two or three codes of the metric joined by a separator (a parser that
+	// searches a delimited list accepts exactly these), a code next to a separator, and the
+	// whole code list as the specification or a table prints it
+	{
+		var evals int64
+		nviol := 0
+		seps := []string{",", ";", "|", "/", " ", "\t", "\n", "-", "_", ":", ".", "+", "&", "=", "\x00", ", ", " | ", "/ ", "\\", "'", "\""}
+		i := 0
+		for _, a := range apis {
+			m := metricOf(a.ver, a.name)
+			i++
+			if nviol > 0 || !mine(i) {
+				continue
+			}
+			try := func(str string) {
+				if m.Index(str) >= 0 {
+					return
+				}
+				evals++
+				evalEnum(c, "code", codeCase{Ver: a.ver, Metric: a.name, Code: []byte(str), Text: strconv.Quote(str)}, checkC20Code, &nviol)
+			}
+			for _, sp := range seps {
+				for x, cx := range m.Codes {
+					try(sp + cx)
+					try(cx + sp)
+					try(sp + cx + sp)
+					for y, cy := range m.Codes {
+						try(cx + sp + cy)
+						if y == x+1 && y+1 < len(m.Codes) {
+							try(cx + sp + cy + sp + m.Codes[y+1])
+						}
+					}
+				}
+				try(strings.Join(m.Codes, sp))
+				try(sp + strings.Join(m.Codes, sp) + sp)
+			}
+		}
+		c.rec.Bulk("code-lists", evals, evals, map[string]int64{"codes-joined-by-separator": evals})
 	}
 	c.rapidStage("rapid-codes", pick(160000, 2000000), func(rt *rapid.T) {
 		a := rapid.SampledFrom(apis).Draw(rt, "metric")
